@@ -289,7 +289,15 @@ class Gen:
         body = self.stmts(d, inner, r.randint(0, 3))
         if r.random() < 0.3:                  # a closure returned and called later
             body.append(Def(r.choice(FUNS), Fn([Param("b")] if r.random() < 0.5 else [], Bin("+", Var(r.choice(INTS + ["a"])), I(1)))))
-        body.append(self.int_expr(1, inner))  # the result is an int expression
+        if r.random() < 0.12:
+            # the function ENDS in a loop whose body ends in `return` (the parser's rewriting of a final
+            # `return e` into `e` must stop at the function body)
+            var = r.choice(INTS)
+            coll = ListN([I(r.randint(0, 4)) for _ in range(r.randint(0, 3))])
+            lctx = dict(inner, loop=True, ints=set(inner["ints"]) | {var})
+            body.append(For([var], "values", coll, Blk(self.stmts(d - 1, lctx, r.randint(0, 2)) + [N("return", a=[self.int_expr(1, lctx)])])))
+        else:
+            body.append(self.int_expr(1, inner))  # the result is an int expression
         ctx["funs"][name] = len([p for p in sig if p != "rest..."])
         return Def(name, Fn(params, Blk(body)))
 
